@@ -171,13 +171,18 @@ def processStep (st : DState) (si : StepIn) : DState × String := Id.run do
     | .send20 _ s _ _ => some s
     | .send721 _ s _ _ => some s
     | _ => none
-  if isForgedHook cur si.op == none then
+  -- (a hook called directly by a *contract* is the C18 matter and judged there; by an account it is C04's)
+  let contractForges := match isForgedHook cur si.op with
+    | some (caller, _) => (cur.kindOf caller).isSome
+    | none => false
+  if !contractForges then
     match actorOf with
     | some actor =>
       let boughtLid : Option Nat := match si.op with | .exec _ _ (.buy lid _) => some lid | _ => none
       let lOk := cur.mkt.listings.all (fun p =>
         p.1.1 == actor || alookup p.1 pw.mkt.listings == some p.2 ||
-        (boughtLid == some p.2.id && p.2.status == .finalized))
+        (boughtLid == some p.2.id && p.2.status == .finalized &&
+          (match p.2.expiresAt with | some e => decide (cur.nowNs ≤ e) | none => false)))
       let bOk := cur.mkt.buckets.all (fun p => p.1.1 == actor || alookup p.1 pw.mkt.buckets == some p.2)
       if !(lOk && bOk) then orc := orc ++ ["o04r"]
     | none =>
@@ -214,8 +219,12 @@ def processStep (st : DState) (si : StepIn) : DState × String := Id.run do
       if bo.contains "x" then orc := orc ++ ["o03x"]
       if bo.contains "d" then orc := orc ++ ["o13d"]
       if adopt then
-        let lf := match findById lid pw.mkt.listings with | some (_, l) => l.fee | none => none
-        let bf := match pw.mkt.buckets.find? (fun p => decide (p.1.2 = bid)) with | some (_, b) => b.fee | none => none
+        let lf := match findById lid pw.mkt.listings with
+          | some (_, l) => l.fee
+          | none => (match findById lid mw.mkt.listings with | some (_, l) => l.fee | none => none)
+        let bf := match pw.mkt.buckets.find? (fun p => decide (p.1.2 = bid)) with
+          | some (_, b) => b.fee
+          | none => (match mw.mkt.buckets.find? (fun p => decide (p.1.2 = bid)) with | some (_, b) => b.fee | none => none)
         st' := { st' with sold := lid :: st'.sold, charged := ghostAdd (ghostAdd st'.charged lf) bf }
     | .exec _ _ (.withdrawPurchased lid) =>
       if st.wdL.contains lid then orc := orc ++ ["o03"]
